@@ -69,7 +69,7 @@ def env_box(names):
     names = sorted(names)
     out = []
     vals = {"x": (-2, 1, 3), "y": (-3, 2), "z": (0, 5), "k": (0, 2), "m": (1,),
-            "r": (["Frac", 1, 2],), "s": (["Frac", -3, 4],), "p": (True, False),
+            "r": (["Frac", 1, 3],), "s": (["Frac", -3, 4],), "p": (True, False),
             "q": (False,)}
     keys = [n for n in names if n in vals]
     for combo in itertools.product(*[vals[k] for k in keys]):
@@ -127,6 +127,14 @@ def run_and_compare(res, what, e, thunk_for_env, env_specs, ref_tree=None):
                 res.fail(f"{what}:value-inexact",
                          f"{e!r} at {small}: generated code gives {describe(got[1])}, "
                          f"reference is the exact {describe(ref[1])}")
+                return False
+            if isinstance(ref[1], (float, np.floating)) and _exact(got[1]) \
+                    and got[1] != ref[1]:
+                # and the other way round: whether a float takes part is decided by the
+                # expression, not by the translation (x**2.0 is a float, x*x may not be)
+                res.fail(f"{what}:value-exact-where-reference-is-float",
+                         f"{e!r} at {small}: generated code gives the exact "
+                         f"{describe(got[1])}, the reference value is {describe(ref[1])}")
                 return False
         elif ref[0] == "err" and got[0] == "err":
             if got[1] not in {n for n, _ in ref[1]} and not (
@@ -606,6 +614,13 @@ def expr_for(draw, frag):
         ex = ["Tuple", [ex, draw(S.expr("INT", 2, frag))]]
     elif c == 1:
         ex = ["Call", ["Lookup", ["Var", "math"], "floor"], [ex]]
+    elif c == 3:
+        # float exponents that are whole numbers: x**2.0 is a float whatever x is
+        base = draw(st.sampled_from((["Var", "x"], ["Var", "y"], ["Var", "r"],
+                                     ["Sum", [["Var", "x"], ["Const", "int", 1]]])))
+        pw = ["Power", base, ["Const", "float", draw(st.sampled_from((2.0, 3.0, 2.0, 1.0)))]]
+        ex = draw(st.sampled_from((pw, ["Sum", [pw, ["Var", "y"]]],
+                                   ["Product", [["Const", "int", 3], pw]])))
     elif c == 2:
         # a negative constant (int or float) where the unary minus of its text binds
         # looser than the operator above it: base of a power, operand of a power's base
